@@ -864,7 +864,27 @@ class Interp:
             return self.ev(ca[1], Frame(self.src.classes[ca[0]].module, {}))
         if attr == "__class__":
             return ClassRef(cls)
+        if self.assigned_on_self(cls, attr):
+            # an instance attribute the class does assign (e.g. a field added to __init__) but the object schema does not
+            # model: reading it is out of reach, not an AttributeError
+            raise Unsupported(f"instance attribute {cls}.{attr} is assigned by the class but is not in the object schema")
         self.raise_exc("AttributeError", attr)
+
+    def assigned_on_self(self, cls: str, attr: str) -> bool:
+        for k in self.src.mro(cls):
+            ci = self.src.classes.get(k)
+            if ci is None:
+                continue
+            for m in ci.methods.values():
+                a0 = m.node.args.args[0].arg if m.node.args.args else None
+                if a0 is None:
+                    continue
+                for n_ in ast.walk(m.node):
+                    tgs = n_.targets if isinstance(n_, ast.Assign) else [n_.target] if isinstance(n_, (ast.AnnAssign, ast.AugAssign)) else []
+                    for t_ in tgs:
+                        if isinstance(t_, ast.Attribute) and t_.attr == attr and isinstance(t_.value, ast.Name) and t_.value.id == a0:
+                            return True
+        return False
 
     def module_attr(self, o: ModuleRef, attr: str, node=None):
         if o.name in self.src.modules:
